@@ -291,7 +291,7 @@ func drawSide(t *rapid.T, cfg *ImgCfg, name string) int {
 	return v
 }
 
-var contentClasses = []string{"flat", "pal2", "pal4", "pal16", "pal256", "gradient", "photo", "noise", "tiled", "sparse", "regions", "bands", "drawn", "outlier"}
+var contentClasses = []string{"flat", "pal2", "pal4", "pal16", "pal256", "gradient", "photo", "noise", "tiled", "sparse", "regions", "bands", "drawn", "outlier", "dyadic", "lenfib", "letterbox"}
 var alphaClasses = []string{"opaque", "opaque", "binary", "levels", "gradient", "noise", "transparent", "transp-colored", "semi-flat", "late", "early"}
 
 // DrawImg draws a picture case.
@@ -653,6 +653,110 @@ func RenderContent(w, h int, content, alpha string, seed uint64) []byte {
 			pix[0], pix[1], pix[2] = r.Byte(), r.Byte(), r.Byte()
 		} else {
 			fill(0, 0, w, h, 1+r.Intn(3))
+		}
+	case "letterbox":
+		// a textured picture with flat bars (top, bottom, left or right; 20-60 % of the side): long runs of
+		// skipped macroblocks at the start or at the end of the raster scan, next to busy ones
+		bar := [3]byte{r.Byte(), r.Byte(), r.Byte()}
+		fw, fh := 20+r.Intn(41), 20+r.Intn(41)
+		where := r.Intn(6) // 0 bottom, 1 top, 2 both, 3 right, 4 left, 5 bottom (again: the common case)
+		smooth := r.Intn(2) == 0
+		for y := 0; y < h; y++ {
+			for x := 0; x < w; x++ {
+				inBar := false
+				switch where {
+				case 0, 5:
+					inBar = y >= h-h*fh/100
+				case 1:
+					inBar = y < h*fh/100
+				case 2:
+					inBar = y < h*fh/200 || y >= h-h*fh/200
+				case 3:
+					inBar = x >= w-w*fw/100
+				case 4:
+					inBar = x < w*fw/100
+				}
+				if inBar {
+					set(x, y, bar)
+				} else if smooth {
+					set(x, y, [3]byte{byte(x*3 + y), byte(y*5 + r.Intn(24)), byte(x ^ y)})
+				} else {
+					set(x, y, [3]byte{r.Byte(), r.Byte(), r.Byte()})
+				}
+			}
+		}
+	case "dyadic", "lenfib":
+		// Huffman stress. Per channel a table of symbol weights is built and every pixel draws from it
+		// independently (no spatial structure, so the entropy coder sees exactly these statistics).
+		// dyadic: weights 1/2, 1/4, 1/8, ... (or golden-ratio decay) over a random permutation of the
+		// byte values: optimal codes want depths beyond the format's 15-bit limit. lenfib: the NUMBER of
+		// symbols wanting length L grows like the Fibonacci numbers, which skews the histogram of code
+		// lengths itself and stresses the 7-bit limit of the code-length code.
+		type tab struct {
+			sym []byte
+			cum []uint64
+		}
+		mk := func() tab {
+			perm := make([]byte, 256)
+			for i := range perm {
+				perm[i] = byte(i)
+			}
+			for i := 255; i > 0; i-- {
+				j := r.Intn(i + 1)
+				perm[i], perm[j] = perm[j], perm[i]
+			}
+			var t tab
+			var acc uint64
+			if content == "dyadic" {
+				n := 8 + r.Intn(40)
+				golden := r.Intn(2) == 0
+				wgt := uint64(1) << 40
+				for i := 0; i < n && wgt > 0; i++ {
+					acc += wgt
+					t.sym = append(t.sym, perm[i])
+					t.cum = append(t.cum, acc)
+					if golden {
+						wgt = wgt * 618 / 1000
+					} else {
+						wgt >>= 1
+					}
+				}
+			} else {
+				start := 2 + r.Intn(4)
+				fa, fb := uint64(1), uint64(1)
+				k := 0
+				for L := start; L < 24 && k < 256; L++ {
+					cnt := int(fa)
+					fa, fb = fb, fa+fb
+					for c := 0; c < cnt && k < 256; c++ {
+						acc += uint64(1) << uint(40-L)
+						t.sym = append(t.sym, perm[k])
+						t.cum = append(t.cum, acc)
+						k++
+					}
+				}
+			}
+			return t
+		}
+		tabs := [3]tab{mk(), mk(), mk()}
+		if r.Intn(3) == 0 {
+			tabs[1] = tab{sym: []byte{r.Byte()}, cum: []uint64{1}} // only red/blue carry the statistics
+		}
+		draw := func(t *tab) byte {
+			v := r.U64() % t.cum[len(t.cum)-1]
+			lo, hi := 0, len(t.cum)-1
+			for lo < hi {
+				m := (lo + hi) / 2
+				if t.cum[m] > v {
+					hi = m
+				} else {
+					lo = m + 1
+				}
+			}
+			return t.sym[lo]
+		}
+		for i := 0; i < w*h; i++ {
+			pix[i*4], pix[i*4+1], pix[i*4+2] = draw(&tabs[0]), draw(&tabs[1]), draw(&tabs[2])
 		}
 	default:
 		panic("content " + content)
